@@ -32,6 +32,9 @@ def build(d):
     fn = G.active_edges_single_cycle if d["fn"] == "cycle" else G.active_edges_single_path
     if d["form"] == "frame":
         h, w = d["h"], d["w"]
+        if d.get("prior"):
+            t = Solver()      # history: the transposed frame went through the same constraint earlier in this process
+            fn(t, BoolGridFrame(t, w, h), use_graph_primitive=d["primitive"])
         frame = BoolGridFrame(s, h, w)
         n, edges, flags = frame_geometry(h, w, frame)
         passed = fn(s, frame, use_graph_primitive=d["primitive"])
@@ -94,6 +97,10 @@ def instances(tier, rng):
         for prim in (False, True):
             out.append(dict(name="frame%dx%d/cycle/pr%d" % (h, w, prim), fn="cycle", form="frame", h=h, w=w, primitive=prim))
         out.append(dict(name="frame%dx%d/path/pr1" % (h, w), fn="path", form="frame", h=h, w=w, primitive=True))
+        if h != w and h * w in (2, 3):
+            for prim in (False, True):
+                out.append(dict(name="frame%dx%d/cycle/pr%d/after-transposed" % (h, w, prim), fn="cycle", form="frame", h=h, w=w, primitive=prim,
+                                prior=True))
     return out
 
 
